@@ -146,21 +146,190 @@ Proof.
   intros _ [Hx|Hx]; discriminate.
 Qed.
 
-Ltac rw_eqs :=
+Ltac rw_goal :=
   repeat match goal with
          | H : ?f ?s = _ |- context [?f ?s] => rewrite H
          end.
 
 Ltac g1_solve :=
-  simpl in *; spec_hyps; intros; rw_eqs; simpl;
-  try (intuition (try congruence; try lia); fail); eauto.
+  simpl; rw_goal; simpl; intros; spec_hyps;
+  first [ congruence | lia | discriminate
+        | (intuition (try congruence; try lia); fail)
+        | eauto ].
 
 Lemma G1_step s l s' : G1 s -> step s l = Some s' -> G1 s'.
 Proof.
   intros [Hwg Hcc Hnc Hbc Hst Htc Hbx Hlb Hpl Hlv Hbxc Hres Hperr Hk Hkr] H.
   step_cases H Htc.
-  all: try (constructor; g1_solve; fail).
-  all: constructor; g1_solve.
-  all: match goal with |- ?g => idtac g end.
-  Show.
-Admitted.
+  all: simpl in *; spec_hyps; constructor; g1_solve.
+Qed.
+
+Definition Reach (mw : Z) (m : fmode) (calls : list nat) (nctx : nat) (s : st) : Prop :=
+  reachable qstep (init mw m calls nctx) s.
+
+Lemma reach_inv (P : st -> Prop) mw m calls nctx :
+  P (init mw m calls nctx) ->
+  (forall s l s', Reach mw m calls nctx s -> P s -> step s l = Some s' -> P s') ->
+  forall s, Reach mw m calls nctx s -> P s.
+Proof.
+  intros H0 Hs s Hr.
+  assert (HP : Reach mw m calls nctx s /\ P s); [|exact (proj2 HP)].
+  apply (invariant_rule qstep (fun s => Reach mw m calls nctx s /\ P s) (init mw m calls nctx)); auto.
+  - split; [apply reachable_refl | exact H0].
+  - intros s1 l s2 [Hr1 HP1] Hq. split; [eapply reachable_step; eauto|].
+    destruct (qstep_step _ _ _ Hq) as [[_ ->]|Hst]; [exact HP1 | eapply Hs; eauto].
+Qed.
+
+Lemma G1_reach mw m calls nctx s : Reach mw m calls nctx s -> G1 s.
+Proof.
+  apply reach_inv; [apply G1_init | intros; eapply G1_step; eauto].
+Qed.
+
+(* ------------------------------------------------------------------ *)
+(* G2: partition                                                       *)
+(* ------------------------------------------------------------------ *)
+Definition dconcat (s : st) : list Z := concat (map d_batch (delivered s)).
+
+Definition G2 (s : st) : Prop :=
+  src s = dconcat s ++ batch s ++ lostb s ++ held (ppc_ s) ++ lostp s.
+
+Lemma G2_step s l s' : G1 s -> G2 s -> step s l = Some s' -> G2 s'.
+Proof.
+  intros [Hwg Hcc Hnc Hbc Hst Htc Hbx Hlb Hpl Hlv Hbxc Hres Hperr Hk Hkr] H2 H.
+  unfold G2, dconcat in *.
+  step_cases H Htc.
+  all: simpl in *; spec_hyps; rw_goal; simpl; try (rewrite H2); rw_goal; simpl.
+  all: repeat rewrite ?map_app, ?concat_app, ?app_nil_r, <- ?app_assoc; simpl;
+       repeat rewrite ?app_nil_r; try reflexivity; try congruence.
+Qed.
+
+Lemma G2_init mw m calls nctx : G2 (init mw m calls nctx).
+Proof. reflexivity. Qed.
+
+(* ------------------------------------------------------------------ *)
+(* monotone facts of one transition                                    *)
+(* ------------------------------------------------------------------ *)
+Record Mono (s s' : st) : Prop := mkMono {
+  m_del : exists t, delivered s' = delivered s ++ t;
+  m_bc : bclosed s = true -> bclosed s' = true;
+  m_bg : bgdone s' = false -> bgdone s = false;
+  m_perr_end : bclosed s = true -> bgdone s = false -> perr s' = perr s;
+  m_perr : forall e, perr s = Some e -> perr s' = Some e;
+  m_stale : stale s' = false -> stale s = false;
+  m_clock : clock s <= clock s';
+  m_cfg : maxw s' = maxw s /\ mode s' = mode s
+}.
+
+Lemma step_mono s l s' : G1 s -> step s l = Some s' -> Mono s s'.
+Proof.
+  intros [Hwg Hcc Hnc Hbc Hst Htc Hbx Hlb Hpl Hlv Hbxc Hres Hperr Hk Hkr] H.
+  step_cases H Htc.
+  all: simpl in *; spec_hyps; constructor; simpl; rw_goal; simpl; intros.
+  all: try (exists []; rewrite app_nil_r; reflexivity).
+  all: try (eexists; reflexivity).
+  all: try first [ congruence | lia | (split; reflexivity) ].
+  - exfalso. specialize (Hbxc H3). destruct (bpc_ s); simpl in *; try discriminate;
+      assert (Hx : cclosed s = true) by (apply Hbxc; auto); congruence.
+  - match goal with Hx : (_ || _)%bool = false |- _ => apply orb_false_iff in Hx; exact (proj1 Hx) end.
+Qed.
+
+(* ------------------------------------------------------------------ *)
+(* G3: what the consumers hold, and who holds each delivered batch     *)
+(* ------------------------------------------------------------------ *)
+Definition pc_res (p : cpc) : option cres :=
+  match p with CRet r | CDone r => Some r | _ => None end.
+
+Definition res_ok (s : st) (k : nat) (r : cres) : Prop :=
+  match r with
+  | CBatch b => exists d, In d (delivered s) /\ d_who d = k /\ d_batch d = b
+  | CEnd => bclosed s = true /\ (bgdone s = false -> perr s = None)
+  | CErr e => bclosed s = true /\ perr s = Some e
+  | CCtx => True
+  end.
+
+Record G3 (s : st) : Prop := mkG3 {
+  g3_res : forall k x r, nth_error (cons s) k = Some x -> pc_res (c_pc x) = Some r -> res_ok s k r;
+  g3_del : forall d, In d (delivered s) ->
+                     exists x, nth_error (cons s) (d_who d) = Some x /\
+                               pc_res (c_pc x) = Some (CBatch (d_batch d));
+  g3_nodup : NoDup (map d_who (delivered s))
+}.
+
+Lemma nth_lt {A} (l : list A) n x : nth_error l n = Some x -> (n < length l)%nat.
+Proof. intros H. apply nth_error_Some. congruence. Qed.
+
+Lemma res_ok_mono s s' k r : Mono s s' -> res_ok s k r -> res_ok s' k r.
+Proof.
+  intros [[t Ht] Hbc Hbg Hpe Hp _ _ _] Hr. destruct r as [b| |e|]; simpl in *; auto.
+  - destruct Hr as (d & Hin & Hw & Hb). exists d. rewrite Ht. split; [apply in_or_app; auto | auto].
+  - destruct Hr as [Hc Hn]. split; [auto|]. intros Hb'. rewrite (Hpe Hc (Hbg Hb')). auto.
+  - destruct Hr as [Hc He]. split; auto.
+Qed.
+
+(* a transition that touches neither the consumers nor the delivered list *)
+Lemma G3_frame s s' :
+  G3 s -> Mono s s' -> cons s' = cons s -> delivered s' = delivered s -> G3 s'.
+Proof.
+  intros [Hr Hd Hn] Hm Hc Hdl. constructor; rewrite ?Hc, ?Hdl; auto.
+  intros k x r Hk Hp. eapply res_ok_mono; eauto.
+Qed.
+
+(* consumer k moves from pc (c_pc x) to p' *)
+Lemma G3_upd s s' k x p' :
+  G3 s -> Mono s s' -> nth_error (cons s) k = Some x ->
+  cons s' = upd (cons s) k (mkC (c_ctx x) p') ->
+  (pc_res (c_pc x) = None \/ pc_res p' = pc_res (c_pc x)) ->
+  (forall r, pc_res p' = Some r -> pc_res (c_pc x) = None -> res_ok s' k r) ->
+  (delivered s' = delivered s \/
+   pc_res (c_pc x) = None /\ exists d, delivered s' = delivered s ++ [d] /\ d_who d = k /\
+                                       pc_res p' = Some (CBatch (d_batch d))) ->
+  G3 s'.
+Proof.
+  intros [Hr Hd Hn] Hm Hk Hc Hpc Hnew Hdl.
+  pose proof (nth_lt _ _ _ Hk) as Hlt.
+  assert (Hsame : nth_error (cons s') k = Some (mkC (c_ctx x) p'))
+    by (rewrite Hc; apply nth_error_upd_same; exact Hlt).
+  assert (Hoth : forall j, j <> k -> nth_error (cons s') j = nth_error (cons s) j)
+    by (intros j Hj; rewrite Hc; apply nth_error_upd_other; congruence).
+  assert (Hold : forall d, In d (delivered s) ->
+                           exists y, nth_error (cons s') (d_who d) = Some y /\
+                                     pc_res (c_pc y) = Some (CBatch (d_batch d))).
+  { intros d Hin. destruct (Hd d Hin) as (y & Hy & Hpy).
+    destruct (Nat.eq_dec (d_who d) k) as [E|E].
+    - rewrite E in *. rewrite Hk in Hy. inversion Hy; subst y.
+      exists (mkC (c_ctx x) p'). split; [exact Hsame|]. simpl.
+      destruct Hpc as [Hnone|Heq]; [congruence | rewrite Heq; exact Hpy].
+    - exists y. rewrite (Hoth _ E). auto. }
+  constructor.
+  - intros j y r Hj Hp. destruct (Nat.eq_dec j k) as [->|Hne].
+    + rewrite Hsame in Hj. inversion Hj; subst y. simpl in Hp.
+      destruct Hpc as [Hnone|Heq].
+      * apply Hnew; auto.
+      * eapply res_ok_mono; eauto. eapply Hr; eauto. rewrite <- Heq. exact Hp.
+    + rewrite (Hoth _ Hne) in Hj. eapply res_ok_mono; eauto.
+  - destruct Hdl as [Hdl|(Hnone & d0 & Hdl & Hw & Hp0)]; rewrite Hdl.
+    + exact Hold.
+    + intros d Hin. apply in_app_or in Hin. destruct Hin as [Hin|[<-|[]]]; [auto|].
+      exists (mkC (c_ctx x) p'). rewrite Hw. split; [exact Hsame | exact Hp0].
+  - destruct Hdl as [Hdl|(Hnone & d0 & Hdl & Hw & Hp0)]; rewrite Hdl; [exact Hn|].
+    rewrite map_app. simpl.
+    assert (Hni : ~ In k (map d_who (delivered s))).
+    { intros Hin. apply in_map_iff in Hin. destruct Hin as (d & Hwd & Hin).
+      destruct (Hd d Hin) as (y & Hy & Hpy). rewrite Hwd, Hk in Hy. inversion Hy; subst y. congruence. }
+    rewrite Hw. clear - Hn Hni.
+    induction (map d_who (delivered s)) as [|a t IH]; simpl.
+    + constructor; [intros []|constructor].
+    + inversion Hn; subst. constructor.
+      * intros Hin. apply in_app_or in Hin. destruct Hin as [Hin|[E|[]]]; [auto|].
+        apply Hni. left; auto.
+      * apply IH; auto. intros Hin; apply Hni; right; auto.
+Qed.
+
+Lemma G3_init mw m calls nctx : G3 (init mw m calls nctx).
+Proof.
+  constructor; simpl.
+  - intros k x r Hk Hp. rewrite nth_error_map in Hk.
+    destruct (nth_error calls k); simpl in Hk; [|discriminate]. inversion Hk; subst. discriminate.
+  - intros d [].
+  - constructor.
+Qed.
